@@ -79,7 +79,7 @@ func (c *CheckCtx) evalAssumptions() {
 	c.assumptions["A-FN: a builtin (types.Func.Fn) is a function of its arguments and the world (fnOut), and does not panic; builtins are under their own contracts in C13/C20"] = true
 	c.assumptions["A-TIME: no context expires during the evaluation (the timeout return is the only clock-dependent path and is covered by C07's reasoning, not here)"] = true
 	c.assumptions["A-IMMUT: forms are immutable once built (C02), so the step relation may read a form in any heap of the iteration in which it exists (readsat points)"] = true
-		c.assumptions["try: quick tier checks the empty form only; the full relation (tryStepThorough with the cut lemmas tryShapeThorough/tryArityThorough) is checked in the thorough tier"] = true
+	c.assumptions["try: the full relation (tryStepThorough with the cut lemmas tryShapeThorough/tryArityThorough) is checked by C03 in both tiers and by C01/C08/C12/C18 in the thorough tier; their quick tier checks the empty try form only"] = true
 	c.assumptions["quasiquote: EVAL evaluates quasiquote()'s result in tail position in the same scope; the transform itself is checked under C12 (qqStep/qqRel); the evaluation lemma (transformed form evaluates to the substituted template) is not proved"] = true
 }
 
@@ -118,9 +118,9 @@ func init() {
 	})
 	register(&Property{
 		ID: "C03", Level: "other",
-		Technique: "contract-based deductive verification of the transport of thrown objects: throw, lisperror.NewLispError, LispError.ErrorValue against thrownOf; EVAL's re-positioning of builtin errors keeps the thrown object (clause of the step relation); empty try form",
+		Technique: "contract-based deductive verification of the transport of thrown objects: throw, lisperror.NewLispError, LispError.ErrorValue against thrownOf; EVAL's re-positioning of builtin errors keeps the thrown object (clause of the step relation); the try form against its definition as a decision tree with cut lemmas asserted after the body has run",
 		DesignRef: "DESIGN.md §4 C03",
-		Explain:   "the object a catch clause receives is unchanged by throw, by re-positioning and by propagation through EVAL/eval_ast/do/macroexpand/Apply (both tiers); the try form against its definition (body, handler once in a child scope binding the thrown object, finally once in the try's scope, arity errors) in the thorough tier only",
+		Explain:   "the object a catch clause receives is unchanged by throw, by re-positioning and by propagation through EVAL/eval_ast/do/macroexpand/Apply (both tiers); the try form against its definition (body, handler once in a child scope binding the thrown object, finally once in the try's scope, arity errors), also in both tiers (about 200 s; the other evaluator properties use the full try relation in their thorough tier only)",
 		Run:       runC03,
 	})
 }
